@@ -115,7 +115,7 @@ def execute(case):
                 return [bad("C19.structure", f"{name} has {len(leaves)} leaves")]
             ids.append(_resolve(font, fmt, leaves[li].name))
     shared = ids[0] == ids[1] and (fmt != "picosvg" or ids[0][1] is not None)
-    margin = min(snapgrid.margin(OUTLINES[case["outline"]], t / 10) for t in TOLS)
+    margin = min(snapgrid.margin(OUTLINES[case["outline"]], t / 10) for t in TOLS + ([case["tol"]] if case["tol"] > 0.5 else []))
     if case["tol"] == -1:
         if shared:
             return [bad("C19.noreuse-separate", f"reuse disabled but donor and copy share {ids[0]}")]
@@ -145,6 +145,10 @@ def cases(tier):
             itertools.product(list(OUTLINES), TRANSLATIONS[:1], [30, 123.4, 1], MIRRORS, [1000], WHERE, [0.1], FMTS))
     else:
         prod = itertools.product(list(OUTLINES), TRANSLATIONS, ROTATIONS, MIRRORS, VBS, WHERE, TOLS, FMTS)
+    # larger-than-default tolerances of a whole unit and more, on plain translations (both tiers)
+    # (outlines that sit on the snap grid of such a tolerance are left out, like everywhere else in this alphabet)
+    big = [(o, tol) for o in OUTLINES for tol in (1.0, 2.0) if snapgrid.margin(OUTLINES[o], tol / 10) >= 0.02]
+    prod = itertools.chain(prod, ((o, t, 0, "none", vb, w, tol, fmt) for o, tol in big for t in TRANSLATIONS[:2] for vb in (1000, 100) for w in WHERE for fmt in FMTS))
     for o, t, r, mi, vb, w, tol, fmt in prod:
         out.append({"outline": o, "t": t, "rot": r, "mirror": mi, "vb": vb, "where": w, "tol": tol, "fmt": fmt})
         base = out[-1]
